@@ -28,7 +28,12 @@ def main (args : List String) : IO UInt32 := do
       | _ => Driver.Compile.judge "C14" j)
     return 0
   | ["C11"] => Driver.runJudge Driver.WireJ.judgeC11; return 0
-  | ["C01"] => Driver.runJudge Driver.LangJ.judge; return 0
+  | ["C01"] =>
+    Driver.runJudge (fun j =>
+      match Driver.fieldD j "program" with
+      | .null => Driver.Compile.judge "C01" j
+      | _ => Driver.LangJ.judge j)
+    return 0
   | ["C12"] => Driver.runJudge (Driver.FrontJ.judge "C12"); return 0
   | ["C13"] => Driver.runJudge Driver.C13J.judge; return 0
   | ["C19"] => Driver.runJudge (Driver.FrontJ.judge "C19"); return 0
